@@ -181,7 +181,7 @@ def root(n: size, x: f32[n, {b}], y: f32[n, {b}], sc: f32):
 
 def t_config_flow(rng):
     """configuration written, read in a guard, overwritten; a callee that reads / writes it"""
-    v1, v2 = _c(rng, [3, 5, 7]), _c(rng, [0, 1, 2])
+    v1, v2 = _c(rng, [1, 2, 3]), _c(rng, [0, 4])
     loopw = rng.random() < 0.5
     body = f"""@config
 class Cfg:
@@ -204,7 +204,7 @@ def subw(x: f32[4]):
 def root(x: f32[4], y: f32[4], sc: f32):
     Cfg.n = {v2}
     {'for k in seq(0, 4):' if loopw else 'if Cfg.n == ' + str(v2) + ':'}
-        Cfg.n = {v1}
+        Cfg.n = {v1 + 4}
     sub(x)
     Cfg.n = {v1}
     if Cfg.n == {v1}:
